@@ -201,9 +201,10 @@ def unpurgedModelOld (norm : String → String) (m : Method) : List LDiag := upR
 def WellDeclaredP (norm : String → String) (m : Method) : Bool := wellDeclared norm (pacts norm m)
 
 /-- guard: the checker's reading of every visit (type node *named* tVarByteArray whatever its
-    shape; first argument of `Purge` *named* like the variable whatever its shape) is the property's -/
+    shape; first argument of `Purge` *named* like the variable whatever its shape) is the
+    property's — or both readings concern no byte array of the method -/
 def AgreesP (norm : String → String) (m : Method) : Bool :=
-  m.body.all (fun e => upAct Cfg.fixed norm e == specPAct norm e)
+  m.body.all (fun e => agreeUpTo norm ((byteArrays norm m).map (fun d => norm d.1)) (upAct Cfg.fixed norm e) (specPAct norm e))
 
 theorem specPAct_not_enter (norm : String → String) {e : Ev} (h : isMethod e.node = false) : specPAct norm e ≠ .enter := by
   simp only [specPAct, h, Bool.false_eq_true, ↓reduceIte]
@@ -224,13 +225,14 @@ theorem upRun_code (norm : String → String) (evs : List Ev) : upRun Cfg.code n
 theorem rule_unpurged (norm : String → String) (m : Method)
     (hw : WellDeclaredP norm m = true) (ha : AgreesP norm m = true) :
     unpurgedModel norm m = unpurgedSpec norm m := by
-  have hacts : m.evs.map (upAct Cfg.fixed norm) = .enter :: pacts norm m := by
-    simp only [Method.evs, List.map_cons, upAct_method Cfg.fixed norm m.hhead, pacts]
-    congr 1
-    apply List.map_congr_left
+  have hcong : (tracker boolFlag Cfg.fixed.up norm).run (.enter :: m.body.map (upAct Cfg.fixed norm)) =
+      (tracker boolFlag Cfg.fixed.up norm).run (.enter :: m.body.map (specPAct norm)) := by
+    apply tracker_congr boolFlag Cfg.fixed.up norm rfl rfl
     intro e he
-    simp only [AgreesP, List.all_eq_true, beq_iff_eq] at ha
+    simp only [AgreesP, List.all_eq_true] at ha
     exact ha e he
+  have hacts : m.evs.map (upAct Cfg.fixed norm) = .enter :: m.body.map (upAct Cfg.fixed norm) := by
+    simp only [Method.evs, List.map_cons, upAct_method Cfg.fixed norm m.hhead]
   have hne : noEnter (pacts norm m) = true := by
     simp only [noEnter, pacts, List.all_map, List.all_eq_true, Function.comp, bne_iff_ne]
     intro e he
@@ -238,10 +240,12 @@ theorem rule_unpurged (norm : String → String) (m : Method)
   have := tracker_spec boolFlag boolFlag_lawful Cfg.fixed.up norm rfl rfl (pacts norm m) hne hw
   rw [unpurgedModel, upRun_code]
   unfold upRun upMachine
-  rw [hacts, this]
-  simp only [trackSpec, unpurgedSpec, byteArrays, purged]
-  have e := filterMap_ite_map (fun d : String × Range => hitIn norm (pacts norm m) (norm d.1))
-    (fun d => TOut.unhit (norm d.1) d.1 d.2) (decls (pacts norm m))
+  rw [hacts, hcong]
+  simp only [pacts] at this
+  rw [this]
+  simp only [trackSpec, unpurgedSpec, byteArrays, purged, pacts]
+  have e := filterMap_ite_map (fun d : String × Range => hitIn norm (m.body.map (specPAct norm)) (norm d.1))
+    (fun d => TOut.unhit (norm d.1) d.1 d.2) (decls (m.body.map (specPAct norm)))
   rw [e, List.map_map]
   rfl
 
@@ -298,7 +302,7 @@ theorem rule_naming_underscore :
 
 /-- guards of a method, together -/
 def InDomain (norm : String → String) (m : Method) : Bool :=
-  WellDeclared norm m && Agrees m && AgreesI norm m && WellDeclaredP norm m && AgreesP norm m &&
+  WellDeclared norm m && Agrees norm m && AgreesI norm m && WellDeclaredP norm m && AgreesP norm m &&
   m.evs.all (fun e => !underscoreFirst e.node.ident)
 
 /-- **lint_is_union** — the items of a method are the multiset union of what the five rules
@@ -329,6 +333,16 @@ theorem lint_is_union (norm : String → String) (hn : NormOK norm) (m : Method)
     exact rule_naming e (h6 e he)
   simp only [unusedModel, unpurgedModel] at e1 e3
   rw [e1, e2, e3, e4, e5]
+
+/-- what the five rules demand of one method -/
+def methodSpec (norm : String → String) (m : Method) : List LDiag :=
+  unusedSpec norm m ++ (returnTypeSpec norm m.head).toList ++ unpurgedSpec norm m ++
+    m.evs.filterMap namingSpec ++ inheritedSpec norm m
+
+/-- what the rules demand of a file: the naming rule on the declarations before the first
+    method, and the five rules on every method -/
+def fileSpec (norm : String → String) (evs : List Ev) : List LDiag :=
+  (headerOf evs).filterMap namingSpec ++ (methodsOf evs).flatMap (methodSpec norm)
 
 /-- **nothing else is flagged, file level**: every item of a response comes from one of the five
     analyzers (the registrations of `manager/mod.rs` are exactly these five). -/
